@@ -186,6 +186,10 @@ def zoo_specs(tier, prop):
         specs.append(dict(cls='NautilusBound', d=3, n_networks=1, periodic=[0], family='wrapped',
                           pool=0, enlarge=1.1, nn=dict(activation='tanh',
                                                        hidden_layer_sizes=(5, 4))))
+        specs.append(dict(cls='NautilusBound', d=2, n_networks=2, periodic=None, family='two',
+                          pool=0, enlarge=1.1, nn=dict(activation='logistic',
+                                                       hidden_layer_sizes=(5,))))
+        specs.append(dict(cls='NeuralBound', d=2, n_networks=3, enlarge=1.1))
     for sp in specs:
         sp['seed'] = s
     return specs
@@ -310,6 +314,14 @@ def sound_checks(label, b, info, sp, V):
     probe = lattice(d)
     if info.get('all_points') is not None:
         probe = np.vstack([probe, info['all_points'], s])
+    if name == 'NautilusBound':
+        # points outside the cube, incl. coordinates exactly 1 and just above it
+        out = np.random.default_rng(23).uniform(-0.2, 1.2, size=(400, d))
+        edge = np.array(probe[:60], copy=True)
+        edge[:20, -1] = 1.0
+        edge[20:40, 0] = np.nextafter(1.0, 2.0)
+        edge[40:60, -1] = 1.5
+        probe = np.vstack([probe, out, edge])
     if name == 'NeuralBound':
         inn = np.asarray(b.contains(probe))
         out = np.asarray(b.outer_bound.contains(probe))
@@ -328,8 +340,15 @@ def sound_checks(label, b, info, sp, V):
             o2 = np.asarray(nbd.outer_bound.contains(shifted))
             if np.any(i2 & ~o2):
                 V('neural-exceeds-outer', 'a member NeuralBound exceeds its outer ellipsoid')
-        if not np.all(np.all((probe >= 0) & (probe < 1), axis=1) | ~inn):
-            V('nautilus-contains-outside-cube', 'NautilusBound contains a point outside the cube')
+        # a periodic coordinate outside [0,1) is wrapped by design; every NON-periodic coordinate of a
+        # contained point must lie in the cube
+        nonp = [j for j in range(d) if b.shift is None or j not in list(b.shift.periodic)]
+        if nonp:
+            inside = np.all((probe[:, nonp] >= 0) & (probe[:, nonp] < 1), axis=1)
+            if not np.all(inside | ~inn):
+                V('nautilus-contains-outside-cube', 'NautilusBound contains {} probe point(s) with a '
+                  'non-periodic coordinate outside [0,1), e.g. {}'.format(
+                      int(np.sum(inn & ~inside)), probe[inn & ~inside][0].tolist()))
 
 
 def _c07_job(sp):
